@@ -59,11 +59,14 @@ var commonClauses = []string{CEscapedPanic, CForeign}
 func init() {
 	register(&PropDef{
 		ID:   "C01",
-		Rule: "rapid-generated histories (all shapes, no faults); non-trivial = at least one successful Invoke executing >=3 user functions in a case with >=2 of {scope depth>=2, decorator, group, named, optional, Export, As, nested object}; distinct by FNV-64 of the canonical IR",
+		Rule: "rapid-generated histories (all shapes; a few failing executions, mostly unrecovered panics, so that later Invokes run on a container that has seen failures); non-trivial = at least one successful Invoke executing >=3 user functions in a case with >=2 of {scope depth>=2, decorator, group, named, optional, Export, As, nested object}; distinct by FNV-64 of the canonical IR",
 		Gen: func(t *rapid.T, thorough bool) *Case {
 			k := DefaultKnobs()
 			k.TwoPhase = true
 			k.MaxOps = 26
+			// a few failing executions (mostly panics, mostly not recovered by
+			// dig): what later Invokes inject must still obey the rule
+			k.NoFaults, k.PFault, k.PPanic = false, 6, 65
 			return GenCase(t, scale(k, thorough))
 		},
 		Check: func(c *Case, st *Stats) *Failure {
@@ -74,7 +77,7 @@ func init() {
 			st.Record(c, nt, l)
 			st.Count("zone_skipped_invokes", v.ZoneSkips)
 			return failFrom(v.First(append(commonClauses,
-				CProvSingle, CFromNowhere, CZeroAvailable, CZeroRequired, CGroupForeign, CInvokedOnce, CUnregisteredRan, CBadExec)...))
+				CProvSingle, CFromNowhere, CZeroAvailable, CZeroRequired, CGroupForeign, CInvokedOnce, CUnregisteredRan, CBadExec, CPoisoned, CRootCause)...))
 		},
 	})
 }
